@@ -12,7 +12,7 @@
 From Coq Require Import Reals ZArith Bool List String QArith.
 From Coquelicot Require Import Coquelicot.
 From V Require Import Base.FieldSig Base.ExecQ Model.VolumeModel Gen.MapsMap Model.Maps Proofs.Maps
-     Gen.MapsSetter Model.MapsSetter Proofs.MapsSetter.
+     Gen.MapsSetter Model.MapsSetter Proofs.MapsSetter Model.GradGlue Proofs.GradGlue.
 Import ListNotations.
 Local Open Scope R_scope.
 
@@ -317,3 +317,47 @@ Example fault_path_examples :
    check_pf_Q MLgResistivity None PMu [Fin (-3#2); Fin (-2#1)] = Some ErrPositive)%Q.
 Proof. exact fault_path_examples_Q. Qed.
 Print Assumptions fault_path_examples.
+
+(* ------------------------------------------------------------------------ *)
+(* Round 7: the GLUE in Simulation.gradient / jtvec / jvec.  The array handed to
+   map.derivative_chain has one row per independent direction of the anisotropy
+   case (rows_of); the code converts the row of direction d with property_d, selected
+   BY NAME (glue_by_name; anchored on simulations.py by anchor_gradient_glue and
+   compared with real Simulations for every case by stream (h)).  For EVERY case,
+   mapping and row: row k of the result is row k of the conductivity gradient times
+   chain(m)(property of direction k), and that is the derivative of the objective with
+   respect to the mapped parameter of direction k. *)
+Theorem gradient_row_converted_with_its_own_property
+  m c prop g k d gk (phi : R -> R) :
+  nth_error (rows_of c) k = Some d -> nth_error g k = Some gk ->
+  (m = MResistivity -> prop d <> 0) ->
+  is_derive phi (backward m (prop d)) gk ->
+  exists r, nth_error (glue_by_name m c prop g) k = Some r /\
+            r = gk * chain m (prop d) /\
+            is_derive (fun y => phi (backward m y)) (prop d) r.
+Proof. exact (glue_row_is_mapped_derivative m c prop g k d gk phi). Qed.
+Print Assumptions gradient_row_converted_with_its_own_property.
+
+Theorem gradient_rows_are_the_given_directions c :
+  NoDup (rows_of c) /\ forall d, In d (rows_of c) <-> given c d = true.
+Proof. exact (conj (rows_nodup c) (rows_are_given c)). Qed.
+Print Assumptions gradient_rows_are_the_given_directions.
+
+(* pairing the rows BY POSITION with [property_x; property_y or x; property_z or x]
+   is the same thing in the isotropic, HTI and triaxial cases ... *)
+Theorem positional_pairing_agrees_off_VTI m c prop g :
+  c <> CVTI -> List.length g = List.length (rows_of c) ->
+  glue_by_position m c prop g = glue_by_name m c prop g.
+Proof. exact (position_agrees_off_VTI m c prop g). Qed.
+Print Assumptions positional_pairing_agrees_off_VTI.
+
+(* ... and wrong for VTI (row 1 is z, entry 1 of the list is the y-fallback property_x):
+   Resistivity, rho_h = 1, rho_v = 2, conductivity gradient (1, 1): required -1/4, positional -1.
+   This witness is also the non-vacuity example of the first theorem. *)
+Theorem positional_pairing_refuted :
+  exists m c prop g k d,
+    nth_error (rows_of c) k = Some d /\
+    nth_error (glue_by_position m c prop g) k = Some (-1) /\
+    nth_error (glue_by_name m c prop g) k = Some (-(1/4)).
+Proof. exact position_refuted. Qed.
+Print Assumptions positional_pairing_refuted.
